@@ -44,6 +44,5 @@ Theorem C04_statement_parser_fuel : forall w00 fb w0 nm w1 (l : StStmtProofs.sl 
   StStmtProofs.wf_l token StInstance.tok_class StInstance.op_level l ->
   StExprProofs.all_triv token StInstance.tok_class w2 -> t_kind en = KEndFunctionBlock ->
   StExprProofs.all_triv token StInstance.tok_class w3 ->
-  StParser.in_scope token StInstance.tok_class (StStmtProofs.flat_l token l ++ w2 ++ en :: w3) = true ->
   StInstance.parse_fb_tokens (w00 ++ fb :: w0 ++ nm :: w1 ++ StStmtProofs.flat_l token l ++ w2 ++ en :: w3) <> StInstance.OFuel.
 Proof. exact StInstanceProofs.parse_fb_fuel. Qed.
